@@ -1764,7 +1764,18 @@ pub fn huge_const_case(r: &mut Rng) -> (String, Doc) {
   let small_arrays: Vec<Doc> = vec![arr(vec![]), arr(vec![Doc::Int(1)]), arr(vec![Doc::Text("a".into())]), arr(vec![Doc::Int(1), Doc::Text("a".into()), Doc::Int(2)])];
   let doc = r.pick(&small_arrays).clone();
   // the ABNF variant is rare: today every instance of it kills the process (see known_findings.json)
-  match r.weighted(&[8, 8, 8, 8, 8, 8, 8, 8, 8, 8, 8, 1]) {
+  match r.weighted(&[8, 8, 8, 8, 8, 8, 8, 8, 8, 8, 8, 1, 8]) {
+    12 => {
+      // numbers written inside a .printf format string: field width and precision
+      let (conv, arg) = *r.pick(&[("d", "1"), ("s", "\"ab\""), ("x", "255"), ("f", "1.5"), ("e", "1.5"), ("g", "2.25"), ("c", "65"), ("05d", "-7")]);
+      let spec = match r.below(4) {
+        0 => format!("%{}{}", n, conv),
+        1 => format!("%-{}{}", n, conv),
+        2 => format!("%.{}{}", n, conv),
+        _ => format!("%{}.{}{}", n, m, conv),
+      };
+      (format!("root = text .printf [\"{}\", {}]\n", spec.replace("05d", "d"), arg), r.pick(&[Doc::Text("x".into()), Doc::Text("1".into()), Doc::Text(" ".repeat(40))]).clone())
+    }
     0 => (format!("root = [ {}* {} ]\ng0 = ()\n", n, zero_width), doc),
     1 => (format!("root = [ {}*{} {}, tstr ]\ng0 = (? int)\n", n, m, zero_width), doc),
     2 => (format!("root = [ {}*{} int ]\n", n, m), doc),
